@@ -700,6 +700,12 @@ class Command(object):
 
                 if currentDir is not None:
                     os.chdir(currentDir)
+
+                if process.returncode != 0:
+                    # VV: The shell could not evaluate the argument string (e.g. an unbalanced quote). Its stdout is
+                    # empty in this case: do not silently run the command without its arguments
+                    raise ValueError("Unable to expand the arguments \"%s\" in a shell (exit code %s): %s" % (
+                        self._arguments, process.returncode, err.strip()))
             finally:
                 self.log.debug('Releasing directory lock')
                 directoryLock.release()
